@@ -319,3 +319,62 @@ def run(F, rep, rule="C13.hashable-keys"):
            (("not evaluated: %s" % undec) if undec else "predicates: %s" % sorted({mir.short(g.path) for _, g in preds})),
            mt.span, fn=mt.path, key=rule + "|accepted-unhashable", sample={"accepted_unhashable": bad, "undecided": undec})
     rep.floor(rule + " key types examined", n, 30)
+
+
+
+def _self_fields(fn):
+    """fields of `self` (argument 1, a reference) that the body projects: {(variant or None, field name)}"""
+    out = set()
+    def visit(pl):
+        if not pl or pl.get("l") != 1:
+            return
+        variant = None
+        for e in pl.get("p", []):
+            if e[0] == "downcast":
+                variant = e[1]
+            elif e[0] == "field":
+                out.add((variant, e[2]))
+                return
+    for bi, si, dst, rv, s_ in fn.assigns():
+        for k in ("ref", "raw", "discr", "len"):
+            if k in rv and isinstance(rv[k], dict):
+                visit(rv[k])
+        for o in mir.rvalue_operands(rv):
+            visit(mir.op_place(o))
+    for c in fn.calls():
+        for a in c.args:
+            visit(mir.op_place(a))
+    return out
+
+
+def hash_eq_agree(F, rep, rule="C13.hash-eq"):
+    """HashMap<Primitive, Primitive> finds a key again only if `a == b` implies `hash(a) == hash(b)` at every moment.  A structural
+    necessary condition, per type that has both impls in crate bytecode: hash() reads no field of `self` that eq() does not read - a field
+    hash() reads and eq() ignores lets two equal keys (in particular: one key before and after that field changes) land in different buckets."""
+    c = F.crates["bytecode"]
+    H, E = {}, {}
+    for i in c.impls:
+        t = i.get("trait") or ""
+        ty = mir.strip_generics(i["self"])
+        if t == "core::hash::Hash":
+            H[ty] = [x for x in i["items"] if x.endswith("::hash")]
+        elif t == "core::cmp::PartialEq":
+            E[ty] = [x for x in i["items"] if x.endswith("::eq")]
+    n = 0
+    for ty in sorted(set(H) & set(E)):
+        hf = F.fn(H[ty][0]) if H[ty] else None
+        ef = F.fn(E[ty][0]) if E[ty] else None
+        if hf is None or ef is None:
+            rep.ob(rule, "%s: hash() reads only what eq() compares" % mir.short(ty), "undecided", "body of hash or eq not in the facts", None, fn=ty,
+                   key="%s|%s" % (rule, mir.short(ty)))
+            continue
+        n += 1
+        hs, es = _self_fields(hf), _self_fields(ef)
+        # a per-variant read of eq covers the same field read without a variant in hash and vice versa only when names match exactly
+        extra = sorted(f for f in hs if f not in es and (None, f[1]) not in es and not any(g[1] == f[1] for g in es if f[0] is None))
+        rep.ob(rule, "%s: hash() reads only what eq() compares" % mir.short(ty), "violated" if extra else "ok",
+               ("hash() reads %s, eq() compares %s: a key whose %s changes (or two keys eq() calls equal) is filed under a different hash and a map "
+                "no longer finds it" % (sorted(x[1] for x in hs), sorted(x[1] for x in es), "/".join(x[1] for x in extra))) if extra
+               else "hash reads %s; eq compares %s" % (sorted(x[1] for x in hs), sorted(x[1] for x in es)), hf.span, fn=hf.path,
+               key="%s|%s" % (rule, mir.short(ty)))
+    rep.floor(rule + " types with both Hash and PartialEq", n, 6)
